@@ -57,6 +57,8 @@ def run(ctx):
         if f not in cell_fn or len(cell_fn[f]) != 1:
             ctx.missing("R4", "dispatch cell `%s`" % f)
     # ---- R1 / R2 per function ------------------------------------------------
+    import inline
+    pol = inline.helpers(prog, keep=("get_two_constants", "get_constant", "get_ground_term"))
     n_arms = 0
     for functor, fns in sorted(cell_fn.items()):
         if len(fns) != 1:
@@ -68,7 +70,7 @@ def run(ctx):
         ctx.fn(F)
         ssp = ("param", 2, F.locals[2].get("name") or "")
         try:
-            ps = Walker(F, max_visits=2, max_paths=100000).paths()
+            ps = Walker(F, max_visits=2, max_paths=100000, inline=pol).paths()
         except Exception as e:
             ctx.ob("R1", "arms(%s)" % functor, False, ctx.where(F), "cannot enumerate paths: %s" % e)
             continue
@@ -147,7 +149,7 @@ def run(ctx):
         ctx.fn(GC)
         terms = ("param", 1, G2.locals[1].get("name") or "")
         ok, why, n = True, "", 0
-        for p in Walker(G2, max_visits=2).paths():
+        for p in Walker(G2, max_visits=2, inline=pol).paths():
             if p.end != "return":
                 continue
             pl = some_payload(p.ret)
@@ -170,13 +172,14 @@ def run(ctx):
         term = ("param", 1, GC.locals[1].get("name") or "")
         ok, why = True, ""
         seen = set()
-        for p in Walker(GC, max_visits=2).paths():
+        for p in Walker(GC, max_visits=2, inline=pol).paths():
             if p.end != "return":
                 continue
-            tv = [v for c, v, bb in p.decisions if c == ("variant", term)]
-            v0 = tv[0] if tv else None
+            # what the path knows about the operand's kind when it returns (all tests on it, in the function and in
+            # helpers it calls, combined)
+            rv = p.refine.get(term)
             pl = some_payload(p.ret)
-            vs = set(v0) if isinstance(v0, tuple) else {v0}
+            vs = set(rv) if rv is not None else {None}
             seen |= vs
             if pl is not None:
                 t = strip(pl)
@@ -186,9 +189,9 @@ def run(ctx):
                 else:
                     # must be the ground term of a variable, itself a constant
                     g = t[1] if t[0] == "field" and t[2] == "Some.0" else None
-                    gk = [v for c, v, bb in p.decisions if c == ("variant", t)]
+                    gk = p.refine.get(t)
                     if not (vs == {"LogicVar"} and g is not None and g[0] == "call" and g[1].endswith("get_ground_term") and
-                            gk and set([gk[0]] if isinstance(gk[0], str) else gk[0]) <= CONST_KINDS):
+                            gk is not None and set(gk) <= CONST_KINDS):
                         ok, why = False, "get_constant returns %s for %s" % (show(t), sorted(vs))
             else:
                 if vs & CONST_KINDS and vs <= CONST_KINDS:
